@@ -30,6 +30,7 @@ func main() {
 		dl      = flag.Duration("deadline", 0, "internal deadline")
 		verbose = flag.Bool("v", false, "")
 		list    = flag.Bool("list", false, "")
+		match   = flag.String("match", "", "development aid: run only cases whose description contains this")
 	)
 	flag.Parse()
 	if *list {
@@ -51,6 +52,7 @@ func main() {
 	}
 	c.From = *from
 	c.Only = *only
+	c.Match = *match
 	c.Verbose = *verbose
 	for _, s := range strings.Split(*skip, ",") {
 		if s == "" {
